@@ -30,6 +30,8 @@ type findQuery struct {
 	Res    [][]int `json:"res"`
 	Err    bool    `json:"err"`
 	Perr   string  `json:"perr"`
+	QV     int     `json:"qv"` // vendor id given with the query (-1: dict.UndefinedVendorID)
+	DV     int     `json:"dv"` // vendor id the dictionary defines the queried name for
 }
 type findLine struct {
 	Ev    string      `json:"ev"`
@@ -41,7 +43,7 @@ type findLine struct {
 
 // 279 = Failed-AVP, a group of the BASE dictionary (its name resolves through the base, its members' names
 // through the message's application)
-var codeNames = map[int]string{9001: "V-Unsigned32", 9010: "V-OctetString", 9018: "V-Grouped", 9050: "V-Grouped2", 9008: "V-Time", 279: "Failed-AVP"}
+var codeNames = map[int]string{9101: "VV-Unsigned32", 9001: "V-Unsigned32", 9010: "V-OctetString", 9018: "V-Grouped", 9050: "V-Grouped2", 9008: "V-Time", 279: "Failed-AVP"}
 
 func wireCode(code, shift int) uint32 {
 	if code < 9000 { // base dictionary codes are the same under every verification dictionary
@@ -74,6 +76,8 @@ func buildForest(ns []treeNode, prefix []int, pos map[*diam.AVP][]int, shift int
 			} else {
 				a = mk(wireCode(n.Code, shift), &diam.GroupedAVP{AVP: kids})
 			}
+		} else if n.Code == 9101 { // the vendor-specific twin of 9001
+			a = diam.NewAVP(wireCode(n.Code, shift), 0xc0, abs.VVendor, datatype.Unsigned32(7))
 		} else if n.Code == 9010 {
 			a = mk(wireCode(n.Code, shift), datatype.OctetString("x"))
 		} else {
@@ -115,6 +119,12 @@ func runFind(id int, c *findCase, dp *dict.Parser, shift int) findLine {
 		g2 = 279
 		c = &findCase{Tree: substCode(c.Tree, 9050, 279)}
 	}
+	u32 := 9001
+	if id%5 == 2 {
+		// the plain Unsigned32 is its vendor-specific twin in every fifth forest
+		u32 = 9101
+		c = &findCase{Tree: substCode(c.Tree, 9001, 9101)}
+	}
 	style := []string{"complete", "late", "literal"}[(id/3)%3]
 	l := findLine{Ev: "find", ID: id, Tree: c.Tree, Q: []findQuery{}, Style: style}
 	pos := map[*diam.AVP][]int{}
@@ -139,10 +149,48 @@ func runFind(id int, c *findCase, dp *dict.Parser, shift int) findLine {
 		}
 		return wireCode(code, shift)
 	}
-	codes := []int{9001, 9010, 9018, g2, 9008}
+	codes := []int{u32, 9010, 9018, g2, 9008}
+	dv := func(code int) int {
+		if code == 9101 {
+			return abs.VVendor
+		}
+		return 0
+	}
+	// by name together with a vendor id: the vendor the dictionary defines the name for, and another one
+	for _, code := range codes {
+		for _, other := range []bool{false, true} {
+			qv := dv(code)
+			if other {
+				qv = abs.VVendor - qv
+			}
+			q := findQuery{Mode: "first", Codes: []int{code}, ByName: true, Res: [][]int{}, QV: qv, DV: dv(code)}
+			q.Perr = safely(func() {
+				a, err := m.FindAVP(codeNames[code], uint32(qv))
+				q.Err = err != nil
+				if a != nil {
+					q.Res = where([]*diam.AVP{a})
+				}
+			})
+			l.Q = append(l.Q, q)
+			q2 := findQuery{Mode: "all", Codes: []int{code}, ByName: true, Res: [][]int{}, QV: qv, DV: dv(code)}
+			q2.Perr = safely(func() {
+				as, err := m.FindAVPs(codeNames[code], uint32(qv))
+				q2.Err = err != nil
+				q2.Res = where(as)
+			})
+			l.Q = append(l.Q, q2)
+			q3 := findQuery{Mode: "path", Codes: []int{code}, ByName: true, Res: [][]int{}, QV: qv, DV: dv(code)}
+			q3.Perr = safely(func() {
+				as, err := m.FindAVPsWithPath([]interface{}{codeNames[code]}, uint32(qv))
+				q3.Err = err != nil
+				q3.Res = where(as)
+			})
+			l.Q = append(l.Q, q3)
+		}
+	}
 	for _, code := range codes {
 		for _, bn := range []bool{false, true} {
-			q := findQuery{Mode: "first", Codes: []int{code}, ByName: bn, Res: [][]int{}}
+			q := findQuery{Mode: "first", Codes: []int{code}, ByName: bn, Res: [][]int{}, QV: -1, DV: dv(code)}
 			q.Perr = safely(func() {
 				a, err := m.FindAVP(key(code, bn), dict.UndefinedVendorID)
 				q.Err = err != nil
@@ -151,7 +199,7 @@ func runFind(id int, c *findCase, dp *dict.Parser, shift int) findLine {
 				}
 			})
 			l.Q = append(l.Q, q)
-			q2 := findQuery{Mode: "all", Codes: []int{code}, ByName: bn, Res: [][]int{}}
+			q2 := findQuery{Mode: "all", Codes: []int{code}, ByName: bn, Res: [][]int{}, QV: -1, DV: dv(code)}
 			q2.Perr = safely(func() {
 				as, err := m.FindAVPs(key(code, bn), dict.UndefinedVendorID)
 				q2.Err = err != nil
@@ -160,7 +208,7 @@ func runFind(id int, c *findCase, dp *dict.Parser, shift int) findLine {
 			l.Q = append(l.Q, q2)
 		}
 	}
-	pc := []int{9001, 9010, 9018, g2}
+	pc := []int{u32, 9010, 9018, g2}
 	var paths [][]int
 	for _, a := range pc {
 		paths = append(paths, []int{a})
@@ -171,9 +219,9 @@ func runFind(id int, c *findCase, dp *dict.Parser, shift int) findLine {
 			}
 		}
 	}
-	paths = append(paths, []int{9008}, []int{9018, 9008}, []int{9008, 9001}, []int{9018, g2, 9018, 9010})
+	paths = append(paths, []int{9008}, []int{9018, 9008}, []int{9008, u32}, []int{9018, g2, 9018, 9010})
 	for k, p := range paths {
-		q := findQuery{Mode: "path", Codes: p, ByName: k%2 == 1, Res: [][]int{}}
+		q := findQuery{Mode: "path", Codes: p, ByName: k%2 == 1, Res: [][]int{}, QV: -1}
 		q.Perr = safely(func() {
 			var ip []interface{}
 			for j, code := range p {
